@@ -489,11 +489,26 @@ class MockIncludeDirective:
             )
             return codeblock.run()
 
+        # guard against circular inclusion (a file that, directly or not, includes itself)
+        include_key = os.path.normpath(path)
+        if not hasattr(self.document, "myst_include_stack"):
+            self.document.myst_include_stack = [
+                os.path.normpath(Path(self.document["source"]).absolute())
+            ]
+        if include_key in self.document.myst_include_stack:
+            raise DirectiveError(
+                3,
+                f'Directive "{self.name}": circular inclusion of {include_key!r} (via '
+                + " > ".join(self.document.myst_include_stack)
+                + ")",
+            )
+
         # Here we perform a nested render, but temporarily setup the document/reporter
         # with the correct document path and lineno for the included file.
         source = self.renderer.document["source"]
         rsource = self.renderer.reporter.source
         line_func = getattr(self.renderer.reporter, "get_source_and_line", None)
+        self.document.myst_include_stack.append(include_key)
         try:
             self.renderer.document["source"] = str(path)
             self.renderer.reporter.source = str(path)
@@ -514,6 +529,7 @@ class MockIncludeDirective:
                 heading_offset=self.options.get("heading-offset", 0),
             )
         finally:
+            self.document.myst_include_stack.pop()
             self.renderer.document["source"] = source
             self.renderer.reporter.source = rsource
             self.renderer.md_env.pop("relative-images", None)
